@@ -43,11 +43,14 @@ type world struct {
 	needFull bool
 	pend     []func() // interface-monitor callbacks not delivered yet
 	told     map[string]int // name -> index as Felix was last told (callbacks delivered, or a successful full resync)
-	// reuseTaint (known finding): a per-interface rescan (an Apply without a full resync) has refreshed an interface
-	// whose kernel index differs from the index Felix was told for it, or is an index Felix was told for ANOTHER name
-	// that it has not been told is gone: resyncIface -> OnIfaceStateChanged then renumbers/renames directly and leaves
-	// stale entries behind in ifaceNameToIndex / ifaceIndexToState; sticky until the next `new`
-	reuseTaint bool
+	// reuseIdx (known finding): interface indices whose entries in Felix's interface maps may be corrupted because a
+	// per-interface rescan (an Apply without a full resync) refreshed an interface whose kernel index differs from the
+	// index Felix was told for it, or is an index Felix was told for ANOTHER name that it has not been told is gone:
+	// resyncIface -> OnIfaceStateChanged then renumbers/renames directly and leaves stale entries behind in
+	// ifaceNameToIndex / ifaceIndexToState.  Holds the old and the new index; an index leaves the set when a later
+	// monitor callback re-reports a link with that index (which rewrites all three maps for it).  Only a failure about
+	// a route on one of these indices is attributed to the known finding.
+	reuseIdx map[int]bool
 	v6       bool // IPv6 table (route keys without a priority are filed under priority 1024)
 	ifStale  bool // a link changed without a callback and no full resync has succeeded since: Felix cannot know the interfaces
 	tainted  bool // a route-listing failure was swallowed by a per-interface rescan and no full resync has happened since
@@ -125,6 +128,12 @@ func mkRoute(key string, ifindex int, gw string, pr int, kind string) *netlink.R
 		panic("kind " + kind)
 	}
 	return r
+}
+
+// idxOf: interface index of a route shown as "<ifindex>/<gw>/<proto>/<kind>".
+func idxOf(shown string) int {
+	n, _ := strconv.Atoi(strings.SplitN(shown, "/", 2)[0])
+	return n
 }
 
 func showRoute(r netlink.Route) string {
@@ -269,6 +278,7 @@ func (w *world) linkChange(name string, idx int, st string) {
 				delete(w.told, n)
 			} else {
 				w.told[n] = i
+				delete(w.reuseIdx, i)
 			}
 		})
 	}
@@ -345,7 +355,7 @@ func exec(w *world, op string) string {
 		w.ifaces = map[string][2]int{}
 		w.wants = map[int]map[string]map[string]want{}
 		w.fresh, w.needFull, w.tainted, w.ifStale, w.pend = false, true, false, false, nil
-		w.told, w.reuseTaint = map[string]int{}, false
+		w.told, w.reuseIdx = map[string]int{}, map[int]bool{}
 		return "ok"
 	case "iface":
 		w.linkChange(ws[1], atoi(ws[2]), ws[3])
@@ -443,11 +453,16 @@ func exec(w *world, op string) string {
 					continue
 				}
 				if i, ok := w.told[n]; ok && i != st[0] {
-					w.reuseTaint = true // the rescan renumbers n directly (ifaceIndexToState of the old index is left behind)
+					// the rescan renumbers n directly (ifaceIndexToState of the old index is left behind)
+					w.reuseIdx[i], w.reuseIdx[st[0]] = true, true
 				}
 				for n2, i := range w.told {
 					if n2 != n && i == st[0] {
-						w.reuseTaint = true // the rescan puts n onto an index whose previous holder Felix has not been told is gone
+						// the rescan puts n onto an index whose previous holder Felix has not been told is gone
+						w.reuseIdx[st[0]] = true
+						if i0, ok := w.told[n]; ok {
+							w.reuseIdx[i0] = true
+						}
 					}
 				}
 			}
@@ -492,7 +507,7 @@ func exec(w *world, op string) string {
 					sig := "route-not-converged"
 					if w.tainted {
 						sig = "route-not-converged-after-swallowed-rescan-list-error"
-					} else if w.reuseTaint {
+					} else if w.reuseIdx[idxOf(e)] || (after[c] != "" && w.reuseIdx[idxOf(after[c])]) {
 						sig = "route-not-converged-after-ifindex-reuse-rescan"
 					}
 					w.h.OracleFail(sig, "after a successful Apply the kernel route for a desired destination is not the class-priority winner",
@@ -506,7 +521,7 @@ func exec(w *world, op string) string {
 						sig := "stale-owned-route"
 						if w.tainted {
 							sig = "stale-owned-route-after-swallowed-rescan-list-error"
-						} else if w.reuseTaint {
+						} else if w.reuseIdx[r.LinkIndex] {
 							sig = "stale-owned-route-after-ifindex-reuse-rescan"
 						}
 						w.h.OracleFail(sig, "after a successful Apply a route Felix owns but does not want is still present",
